@@ -626,6 +626,12 @@ def replay(obj, kind=None):
     src = (obj["src"][0], tuple(tuple(x) for x in obj["src"][1]))
     dst = (obj["dst"][0], tuple(tuple(x) for x in obj["dst"][1]))
     m = eval(obj["m"], {"Decimal": Decimal})
+    # the magnitudes of one pair follow each other in one restored state: run them the same way
+    r = _chunk([(src, dst)])
+    hits = [v for v in r["viols"] if v[3].get("m") == obj["m"] and (kind is None or v[0] == kind)]
+    if hits:
+        return True, hits[0][2]
+    sp.w.restore()
     oc, v = judge(sp, src, dst, m)
     if v:
         return True, v[2]
